@@ -687,6 +687,16 @@ func c18JudgeServer(j *c18Judge, srv *lfsServer, from int, asked map[string]int6
 			if _, ok := asked[oid]; !ok {
 				j.fail("a transfer request is for an object the caller did not ask about", cas, oid)
 			}
+			if srv.offerExtra && len(oid) >= 8 {
+				kind := map[string]string{"storage-put": "upload", "storage-get": "download"}[rq.Kind]
+				for n, v := range srv.actHeader(kind, oid) {
+					cn := http.CanonicalHeaderKey(n)
+					if got := rq.Header[cn]; got != v {
+						j.fail("a transfer request does not carry an offered action header exactly once with the offered value", cas, fmt.Sprintf("%s %s: %s=%q, offered %q (as %q)", rq.Method, rq.Path, cn, got, v, n))
+					}
+				}
+				j.c.R.Count(fmt.Sprintf("action-use.offered-headers.style%d", srv.hdrStyle))
+			}
 			if rq.Kind == "storage-get" && rq.Header["Content-Type"] != "" {
 				j.fail("a download request carries a Content-Type", cas, rq.Header["Content-Type"])
 			}
@@ -704,6 +714,14 @@ func c18JudgeServer(j *c18Judge, srv *lfsServer, from int, asked map[string]int6
 			}
 			if rq.Method != "POST" {
 				j.fail("the verify request is not a POST", cas, rq.Method)
+			}
+			if srv.offerExtra && len(v.Oid) >= 8 {
+				for n, val := range srv.actHeader("verify", v.Oid) {
+					cn := http.CanonicalHeaderKey(n)
+					if got := rq.Header[cn]; got != val {
+						j.fail("the verify request does not carry an offered action header exactly once with the offered value", cas, fmt.Sprintf("%s=%q, offered %q (as %q)", cn, got, val, n))
+					}
+				}
 			}
 			if sz, ok := asked[v.Oid]; !ok || sz != v.Size {
 				j.fail("the verify request names an object/size the caller did not upload", cas, rq.Body)
@@ -773,6 +791,8 @@ func c18Scenario(c *Ctx, j *c18Judge, idx int, r *Rng) {
 	srv := newLfsServer()
 	defer srv.srv.Close()
 	srv.pageSize = Pick(r, []int{0, 1, 2})
+	srv.hdrStyle = r.Intn(4)
+	srv.offerExtra = r.Chance(50)
 	remote := filepath.Join(base, "remote.git")
 	runIn(base, nil, "git", "init", "-q", "--bare", remote)
 	w, err := newScenRepo(c, filepath.Join(base, "w"), srv)
